@@ -104,6 +104,7 @@ def _mentions_arrays(goal):
 
 def run_check(repo, chk: Check, tier, prefix):
     from . import numeval as _nv
+    _nv.MIN_ADMISSIBLE, _nv.MAX_SAMPLES = (40, 400) if tier == "quick" else (150, 1500)   # thorough: deeper sampling before "not realisable"
     _nv.TERM_SHAPES.clear()
     _nv.FUNC_SHAPES.clear()
     H = Harness(repo, chk)
